@@ -26,7 +26,7 @@ CLAIMED = {
     "C06": {
         "technique": "deterministic simulation: invariant monitors on the output of every language's real pass chain (ContextForLanguage) for generated nested inputs under seeded map-order schedules; the statement's predicates evaluated on every type position; violations attributed to the pass that broke them by replaying the chain step by step; shrinking and replay",
         "text": "Chain post-conditions are checked on sampled nested inputs in two generator modes (plain: flat unions, no allOf; nested: everything). Each violation is keyed by (mode, language, predicate, cause) where cause is broken-by:<pass>, created-violating-by:<pass> or never-established, so that a chain losing the pass that establishes a predicate shows up as a new key even though many gaps of the chains are already known.",
-        "note": "The 75 known findings are genuine normal-form gaps of the current chains (a later pass replaces a type and drops nullability, nested unions survive in generated structs, ...). A regression that coincides exactly with a listed (mode, language, predicate, cause with kind transition) is masked. Hint payloads are not type positions.",
+        "note": "The 79 known findings are genuine normal-form gaps of the current chains (a later pass replaces a type and drops nullability, nested unions survive in generated structs, ...). A regression that coincides exactly with a listed (mode, language, predicate, cause with kind transition) is masked. Hint payloads are not type positions.",
         "design_ref": "DESIGN.md §5 C06",
     },
     "C07": {
